@@ -138,6 +138,7 @@ class Interp:
         self.await_hook = None
         self.call_hooks = {}
         self.max_unroll = 64
+        self.guards = []
 
     # ------------------------------------------------------------ fresh symbols
     def fresh(self, base, sort=None):
@@ -381,6 +382,22 @@ class Interp:
 
     def st_If(self, st, env, module, qual):
         c = self.ev(st.test, env)
+        if self.spec_mode and isinstance(c, Sym):
+            t = S(smt.truthy(c.term))
+            if not (z3.is_true(t) or z3.is_false(t)):
+                # generic-index evaluation: no forking; the branches run under a guard and may
+                # only perform guarded dict stores / local assignments
+                for g, body in ((t, st.body), (S(z3.Not(t)), st.orelse)):
+                    if not body:
+                        continue
+                    self.guards.append(g)
+                    try:
+                        self.exec_block(body, env, module, qual)
+                    except (ReturnEx, BreakEx, ContinueEx):
+                        raise OutOfReach("control flow under a symbolic guard in term-building mode", st)
+                    finally:
+                        self.guards.pop()
+                return
         if self.truth(c):
             self.exec_block(st.body, env, module, qual)
         else:
@@ -675,6 +692,11 @@ class Interp:
 
     # ------------------------------------------------------------ assignment
     def store_name(self, name, v, env):
+        if self.guards:
+            if name not in env.vars:
+                raise OutOfReach("first assignment of %s under a symbolic guard" % name)
+            g = S(z3.And(*self.guards))
+            v = Sym(z3.If(g, self.to_term(v), self.to_term(env.vars[name])))
         env.vars[name] = v
 
     def assign(self, target, v, env):
@@ -966,6 +988,44 @@ class Interp:
 
     def ex_DictComp(self, node, env):
         d = IDict()
+        if len(node.generators) == 1 and node.generators[0].ifs:
+            # symbolic filter conditions become conditional entries (no 2^n forking
+            # over optional attributes): {k: Maybe(cond, v)}
+            g = node.generators[0]
+            it = self.ev(g.iter, env)
+            if isinstance(it, (SList, RSeq)):
+                raise OutOfReach("dict comprehension over symbolic collection", node)
+            cenv = Env(parent=env)
+            for x in self.iterate(it):
+                self.assign(g.target, x, cenv)
+                conds = []
+                dead = False
+                self.spec_mode += 1
+                try:
+                    for c in g.ifs:
+                        cv = self.ev(c, cenv)
+                        if isinstance(cv, Sym):
+                            t = S(smt.truthy(cv.term))
+                            if z3.is_false(t):
+                                dead = True
+                                break
+                            if not z3.is_true(t):
+                                conds.append(t)
+                        elif not self.truth(cv):
+                            dead = True
+                            break
+                finally:
+                    self.spec_mode -= 1
+                if dead:
+                    continue
+                k = self.ev(node.key, cenv)
+                v = self.ev(node.value, cenv)
+                if conds:
+                    if isinstance(k, Sym):
+                        raise OutOfReach("conditional dict entry with symbolic key", node)
+                    v = Maybe(S(z3.And(*conds)), v)
+                self.setitem(d, k, v)
+            return d
         for e in self.comp_envs(node.generators, env):
             k = self.ev(node.key, e)
             v = self.ev(node.value, e)
